@@ -69,7 +69,20 @@ def scenario(i):  # noqa: C901
         tree = deque([{k[0]: TNode([L[0], L[1]], meta=m1)}, defaultdict(list, {k[2]: TNT(L[2], L[3]), k[1]: L[4]}), OrderedDict([(k[3], U.CList([L[5]], meta=m1))])], maxlen=5)
         rest = deque([{k[0]: TNode([L[6], L[7]], meta=m2)}, OrderedDict([(k[1], L[8]), (k[2], TNT(L[9], L[10]))]), {k[3]: U.CList([L[11]], meta=m2)}])
         ns = NSF
-    return dict(tree=tree, rest=rest, ns=ns, tracked=tracked, leaves=L)
+    # a tree that does NOT match `tree` (one dict with another key set, its keys stored in unsorted order): the operations below fail with the
+    # documented ValueError on their own - the callbacks reached on that error path (key comparisons while the message is built) are fault points too
+    spare = [TKey(20 + j, g=7) for j in range(3)]
+    bad = None
+    if i == 0:
+        bad = dict(rest)
+        bad[k[2]] = OrderedDict([(spare[2], L[12]), (k[4], L[13]), (spare[0], L[14]), (spare[1], L[15])])
+    elif i == 6:
+        bad = dict(rest)
+        bad[k[2]] = OrderedDict([(k[4], L[11]), (spare[1], L[12]), (3, L[13]), (spare[0], L[14])])
+    elif i == 5:
+        bad = deque([OrderedDict([(spare[1], L[6]), (k[0], L[7]), (spare[0], L[8])]), rest[1], rest[2]])
+    tracked += spare
+    return dict(tree=tree, rest=rest, bad=bad, ns=ns, tracked=tracked, leaves=L)
 
 
 def canon(x, depth=0):  # noqa: C901
@@ -160,6 +173,14 @@ def operations():  # noqa: C901
     ops['treespec_from_collection'] = lambda c: optree.treespec_from_collection(c['speccoll'], namespace=c['ns'])
     ops['treespec_dict'] = lambda c: optree.treespec_dict(c['specdict'], namespace=c['ns'])
     ops['set-member'] = lambda c: len({c['spec'], c['spec2'], c['rspec']})
+    # operations that fail with the documented ValueError by themselves (mismatching second tree / treespec)
+    ops['tree_map/mismatch'] = lambda c: optree.tree_map(f, c['tree'], c['bad'], **kw(c))
+    ops['flatten_up_to/mismatch'] = lambda c: c['spec'].flatten_up_to(c['bad'])
+    ops['is_prefix/mismatch'] = lambda c: (c['spec'].is_prefix(c['bspec']), c['spec'] <= c['bspec'], c['bspec'] >= c['spec'])
+    ops['broadcast_to_common_suffix/mismatch'] = lambda c: c['spec'].broadcast_to_common_suffix(c['bspec'])
+    ops['broadcast_to_common_suffix/mismatch-rev'] = lambda c: c['bspec'].broadcast_to_common_suffix(c['spec'])
+    ops['tree_broadcast_common/mismatch'] = lambda c: optree.tree_broadcast_common(c['tree'], c['bad'], **kw(c))
+    ops['prefix_errors/mismatch'] = lambda c: [type(e('t')).__name__ for e in optree.prefix_errors(c['tree'], c['bad'], **kw(c))]
     return ops
 
 
@@ -170,11 +191,12 @@ def build_ctx(si):
     c['leaves'], c['spec'] = optree.tree_flatten(s['tree'], **kwn)
     c['spec2'] = optree.tree_structure(s['tree'], **kwn)
     c['rspec'] = optree.tree_structure(s['rest'], **kwn)
+    c['bspec'] = optree.tree_structure(s['bad'], **kwn) if s['bad'] is not None else None
     leaf = optree.treespec_leaf()
     keys = [x for x in s['tracked'] if isinstance(x, TKey)]
     c['specdict'] = {keys[1]: leaf, keys[0]: c['spec'], keys[2]: leaf} if si != 6 else {keys[1]: leaf, 5: c['spec'], keys[0]: leaf, 'y': leaf}
     c['speccoll'] = TNode([c['spec'], leaf], meta=s['tracked'][-1]) if s['ns'] == NSF else U.CSeq([c['spec'], leaf], meta=s['tracked'][-1])
-    c['tracked'] = s['tracked'] + [s['tree'], s['rest'], c['spec'], c['spec2'], c['rspec'], c['leaves'], c['specdict'], c['speccoll']]
+    c['tracked'] = s['tracked'] + [s['tree'], s['rest'], c['spec'], c['spec2'], c['rspec'], c['leaves'], c['specdict'], c['speccoll']] + ([s['bad'], c['bspec']] if s['bad'] is not None else [])
     return c
 
 
@@ -193,6 +215,9 @@ def journal_run(sink, case, sub_start, progress):  # noqa: C901
     ident = dict(op=opname, scenario=si)
     c = build_ctx(si)
     inj = Injector()
+    # what every treespec involved looks like before anything ran (the counting run below must not change it either)
+    all_specs = [x for x in (c['spec'], c['spec2'], c['rspec'], c.get('bspec')) if x is not None]
+    base_hash, base_repr = [hash(x) for x in all_specs], [repr(x) for x in all_specs]
     # counting run (also the baseline)
     inj.arm(None)
     try:
@@ -204,9 +229,14 @@ def journal_run(sink, case, sub_start, progress):  # noqa: C901
         inj.disarm()
     K = inj.n
     sites = dict(inj.sites)
-    base_hash, base_repr = hash(c['spec']), repr(c['spec'])
     sink.extra.setdefault('K', {})[f'{opname}/s{si}'] = K
-    if base[0] != 'ok':
+    mismatch_op = opname.split('/')[-1].startswith('mismatch')
+    if mismatch_op and c['bad'] is None:
+        sink.count('op-not-applicable')
+        return
+    if mismatch_op:
+        sink.check(base[0] == 'ok' or base[1] == 'ValueError', f'mismatch-baseline/{opname}', 'a mismatching second tree fails with the documented ValueError (or, for predicates, returns)', ident, base)
+    if base[0] != 'ok' and not (mismatch_op and base[1] == 'ValueError'):
         # the operation does not apply to this scenario (e.g. rest is not a suffix): nothing to inject into
         sink.count('op-not-applicable')
         sink.extra.setdefault('not_applicable', []).append(f'{opname}/s{si}: {base[1]}')
@@ -276,10 +306,11 @@ def journal_run(sink, case, sub_start, progress):  # noqa: C901
             again = ('exc', type(e).__name__, str(e)[:200])
         sink.check(again == base, f'rerun/{opname}/{site}', 'the same operation re-run without faults equals the pre-failure baseline', jid, lambda: (again, base))
         try:
-            h2, r2 = hash(c['spec']), repr(c['spec'])
+            h2, r2 = [hash(x) for x in all_specs], [repr(x) for x in all_specs]
         except Exception as e:  # noqa: BLE001
             h2, r2 = type(e).__name__, ''
-        sink.check((h2, r2) == (base_hash, base_repr), f'guards-cleared/{opname}/{site}', 'hash / repr of the treespec are unchanged (in-progress guards cleared)', jid, lambda: (h2, r2[:200], base_repr[:200]))
+        sink.check((h2, r2) == (base_hash, base_repr), f'guards-cleared/{opname}/{site}', 'hash / repr of every treespec involved are unchanged (in-progress guards cleared, operands untouched)', jid,
+                   lambda: [(a[:160], b[:160]) for a, b in zip(r2, base_repr) if a != b] or (h2, base_hash))
         sink.count(f'injections:{site}')
         sink.count('injections')
         sink.case(harness.fp(opname, si, k), True, jid if k == 1 and si == 0 else None)
